@@ -64,14 +64,15 @@ def django_load(inst):
     M.Region.objects.bulk_create([M.Region(id=r["id"], name=r["name"]) for r in inst.get("regions", [])])
     M.Org.objects.bulk_create([M.Org(id=o["id"], name=o["name"], size=o.get("size"), region_id=o.get("region"))
                                for o in inst.get("orgs", [])])
-    M.Owner.objects.bulk_create([M.Owner(id=o["id"], name=o["name"], age=o.get("age"), org_id=o.get("org"))
+    M.Owner.objects.bulk_create([M.Owner(id=o["id"], name=o["name"], age=o.get("age"), rank=o.get("rank", 0),
+                                         org_id=o.get("org"))
                                  for o in inst.get("owners", [])])
     M.Tag.objects.bulk_create([M.Tag(id=t["id"], label=t["label"], n=t["n"]) for t in inst.get("tags", [])])
     items = []
     for i, r in enumerate(inst["items"]):
         items.append(M.Item(id=r.get("id", i + 1), i1=r.get("i1"), i2=r.get("i2"), r1=r.get("r1"), s1=r.get("s1"),
                             s2=r.get("s2"), b1=r.get("b1"), t1=_aware(r.get("t1")), d1=_date(r.get("d1")),
-                            owner_id=r.get("owner")))
+                            k=r.get("k", 0), owner_id=r.get("owner")))
     M.Item.objects.bulk_create(items)
     through = M.Item.tags.through
     links = []
@@ -126,8 +127,11 @@ def sqlalchemy_models():
     global _sa
     if _sa is not None:
         return _sa
+    import warnings
     import sqlalchemy as sa
     from sqlalchemy import event
+    from sqlalchemy.exc import SAWarning
+    warnings.filterwarnings("ignore", category=SAWarning)
     from sqlalchemy.orm import Session, declarative_base, relationship
     from sqlalchemy.pool import StaticPool
 
@@ -157,6 +161,7 @@ def sqlalchemy_models():
         id = sa.Column(sa.Integer, primary_key=True)
         name = sa.Column(sa.String)
         age = sa.Column(sa.Integer)
+        rank = sa.Column(sa.Integer, nullable=False, default=0)
         org_id = sa.Column(sa.ForeignKey("org.id"))
         org = relationship("Org", back_populates="owners")
         items = relationship("Item", back_populates="owner")
@@ -179,6 +184,7 @@ def sqlalchemy_models():
         b1 = sa.Column(sa.Boolean)
         t1 = sa.Column(sa.DateTime)
         d1 = sa.Column(sa.Date)
+        k = sa.Column(sa.Integer, nullable=False, default=0)
         owner_id = sa.Column(sa.ForeignKey("owner.id"))
         owner = relationship("Owner", back_populates="items")
         parts = relationship("Part", back_populates="item")
@@ -237,7 +243,7 @@ def sqlalchemy_load(inst):
                                               "region_id": o.get("region")} for o in inst["orgs"]])
     if inst.get("owners"):
         c.execute(S.Owner.__table__.insert(), [{"id": o["id"], "name": o["name"], "age": o.get("age"),
-                                                "org_id": o.get("org")} for o in inst["owners"]])
+                                                "rank": o.get("rank", 0), "org_id": o.get("org")} for o in inst["owners"]])
     if inst.get("tags"):
         c.execute(S.Tag.__table__.insert(), [{"id": t["id"], "label": t["label"], "n": t["n"]} for t in inst["tags"]])
     rows = []
@@ -246,7 +252,7 @@ def sqlalchemy_load(inst):
         iid = r.get("id", i + 1)
         rows.append({"id": iid, "i1": r.get("i1"), "i2": r.get("i2"), "r1": r.get("r1"), "s1": r.get("s1"),
                      "s2": r.get("s2"), "b1": r.get("b1"), "t1": _naive(r.get("t1")), "d1": _date(r.get("d1")),
-                     "owner_id": r.get("owner")})
+                     "k": r.get("k", 0), "owner_id": r.get("owner")})
         for tid in r.get("tags", []):
             links.append({"item_id": iid, "tag_id": tid})
     c.execute(S.Item.__table__.insert(), rows)
